@@ -477,7 +477,8 @@ def parse_config(path):
         _input["paths"] = None
 
     # Output fields are optional, default: most data output, least logging output.
-    _output = toml.get("output", {})
+    toml["output"] = toml.get("output", {})
+    _output = toml["output"]
     if "directory" in _output:
         _output["directory"] = resolve_path(_output["directory"], path.parent)
     else:
@@ -555,9 +556,11 @@ def _parse_config_params(toml):
 
     # Make sure initial olivine fabric is valid.
     try:
-        _params["initial_olivine_fabric"] = getattr(
-            _core.MineralFabric, "olivine_" + _params["initial_olivine_fabric"]
-        )
+        # The default value is already a `MineralFabric`, not a fabric letter.
+        if not isinstance(_params["initial_olivine_fabric"], _core.MineralFabric):
+            _params["initial_olivine_fabric"] = getattr(
+                _core.MineralFabric, "olivine_" + _params["initial_olivine_fabric"]
+            )
     except AttributeError:
         raise _err.ConfigError(
             f"invalid initial olivine fabric: {_params['initial_olivine_fabric']}"
@@ -669,8 +672,10 @@ def _parse_config_input_postpaths(input, path):
 
 def _parse_output_options(output_opts, level, phase_assemblage):
     try:
+        # By default, output is produced for all simulated mineral phases.
         output_opts[level] = [
-            getattr(_core.MineralPhase, ϕ) for ϕ in output_opts[level]
+            getattr(_core.MineralPhase, ϕ)
+            for ϕ in output_opts.get(level, [ϕ.name for ϕ in phase_assemblage])
         ]
     except AttributeError:
         raise _err.ConfigError(
